@@ -380,8 +380,68 @@ def rule_predicate_recursion(ck, facts, R="C12.predicates"):
     ck.floor(R, "deep_predicate_arms", n, 6)
 
 
+def rule_synthesised_closures(ck, facts):
+    """wrapper closures the bytecode generator makes up for bare function values"""
+    from ..cfg import DefIndex
+
+    R = "C12.synthesised-closure"
+    ck.rule(R, "where the bytecode generator itself wraps a bare function value into a heap closure (a MakeHeapClosure with the constant size 0 — not the translation of a MIR MakeClosure, whose retains are MIR instructions of their own) because the value is about to be stored (array element, Store, SetGlobal), it emits a CloneHeap of the same register right after it: every such site does, so that the stored handle owns a reference. A site without it leaves the wrapper with the frame's reference only: it is freed when the frame returns while the array / global still holds the handle (use after release)")
+    lang = facts.crate(roles.LANG)
+    n = 0
+    for f in lang.fns:
+        if "::compiler::bytecodegen" not in f.path or f.kind == "promoted" or "::test" in f.path:
+            continue
+        for b, blk in enumerate(f.bb):
+            if blk["c"]:
+                continue
+            for i, st in enumerate(blk["s"]):
+                if not (st[KIND] == "a" and st[5][0] == "agg" and st[5][1][0] == "adt" and st[5][1][1] == roles.VM_INSTR and st[5][1][3] == "MakeHeapClosure"):
+                    continue
+                ops = st[5][2]
+                if not (len(ops) == 3 and ops[2][0] == "c" and str(ops[2][-1]) == "0"):
+                    continue
+                n += 1
+                di = DefIndex(f)
+
+                def origin(op):
+                    cur = op
+                    for _ in range(6):
+                        if cur[0] not in ("cp", "mv") or cur[1][1]:
+                            return repr(cur)
+                        d = di.single_def(cur[1][0])
+                        if d is None or d[1] is None or d[2][5][0] != "use" or d[2][5][1][0] not in ("cp", "mv"):
+                            return cur[1][0]
+                        cur = d[2][5][1]
+                    return repr(cur)
+
+                reg = origin(ops[0])
+                # follow the straight-line successors (pushes are calls) for a CloneHeap of the same register
+                found = False
+                cur, steps = b, 0
+                seen_first = False
+                while cur is not None and steps < 6 and not found:
+                    for st2 in f.bb[cur]["s"]:
+                        if st2 is st:
+                            seen_first = True
+                            continue
+                        if seen_first and st2[KIND] == "a" and st2[5][0] == "agg" and st2[5][1][0] == "adt" and st2[5][1][1] == roles.VM_INSTR and st2[5][1][3] == "CloneHeap":
+                            if origin(st2[5][2][0]) == reg:
+                                found = True
+                    sc = f.succs(cur)
+                    cur = sc[0] if len(sc) == 1 else None
+                    steps += 1
+                key = "retain|%s" % f.short.split("::", 3)[-1]
+                if found:
+                    ck.ok(R, key, {"site": f.where(st)})
+                else:
+                    ck.bad(R, key, "%s wraps a bare function value into a heap closure (MakeHeapClosure .., .., 0) and does not retain it (no CloneHeap of the same register follows): the wrapper is released with the frame that built it while the container it was stored in still holds the handle — `let fs = [double, triple]` at top level, then `fs[0](x)` in dsp, calls a freed closure" % f.short, f.where(st))
+    ck.floor(R, "synthesised_wrapper_sites", n, 2)
+
+
 def run(ck, facts, tier):
     from ..callgraph import CallGraph
+
+    rule_synthesised_closures(ck, facts)
 
     rule_pairing(ck, facts, None)
     rule_walker_recursion(ck, facts)
